@@ -115,6 +115,10 @@ func classReps(class string) []any {
 		return []any{myStr("s")}
 	case "errresult":
 		return []any{errors.New("carried error")}
+	case "resultval":
+		// the wrapper is a value like any other: wrapping it again must not look through it
+		return []any{flyt.NewResult(42), flyt.NewResult("s"), flyt.NewResult(true), flyt.NewResult(1.5), flyt.NewResult([]any{1, 2}),
+			flyt.NewResult(map[string]any{"a": 1}), flyt.NewResult(nil), flyt.NewErrorResult(errors.New("inner"))}
 	}
 	fatal("unknown class %q", class)
 	return nil
@@ -421,7 +425,7 @@ func toSliceFacts(class string, rep int, v any) Event {
 
 var accessClasses = []string{"nil", "string", "bool", "int", "int8", "int16", "int32", "int64", "uint", "uint8", "uint16", "uint32", "uint64",
 	"float32", "float64", "nan", "inf", "anyslice", "strslice", "intslice", "f64slice", "mapslice", "otherslice", "nilslice", "selfslice",
-	"namedslice", "map", "othermap", "func", "chan", "ptr", "nilptr", "array", "cstruct", "sstruct", "namedint", "namedstr", "errresult"}
+	"namedslice", "map", "othermap", "func", "chan", "ptr", "nilptr", "array", "cstruct", "sstruct", "namedint", "namedstr", "errresult", "resultval"}
 
 func randomValue(r *rand.Rand) (string, any) {
 	switch r.Intn(16) {
